@@ -99,11 +99,21 @@ def run_mutant(lane, m, out):
     scratch = "/tmp/fm-mc-%d" % lane
     shutil.rmtree(scratch, ignore_errors=True)
     sh("mkdir -p %s && rsync -a --exclude _build --exclude .git %s/ %s/" % (scratch, REPO, scratch))
-    p = os.path.join(scratch, m["file"])
-    lines = open(p).read().split("\n")
-    assert lines[m["line"]] == m["before"]
-    lines[m["line"]] = m["after"]
-    open(p, "w").write("\n".join(lines))
+    if m.get("patch"):
+        r0 = sh("cd %s && patch -p1 -s < %s" % (scratch, m["patch"]))
+        if r0.returncode != 0:
+            res0 = dict(m)
+            res0["status"] = "patch_failed"
+            with open(os.path.join(out, "results.jsonl"), "a") as f:
+                f.write(json.dumps(res0) + "\n")
+            shutil.rmtree(scratch, ignore_errors=True)
+            return res0
+    else:
+        p = os.path.join(scratch, m["file"])
+        lines = open(p).read().split("\n")
+        assert lines[m["line"]] == m["before"]
+        lines[m["line"]] = m["after"]
+        open(p, "w").write("\n".join(lines))
     alt = "/tmp/verif-alt-" + hashlib.sha1(scratch.encode()).hexdigest()[:10]
     res = dict(m)
     t0 = time.time()
@@ -152,6 +162,7 @@ def main():
     ap.add_argument("--lanes", type=int, default=4)
     ap.add_argument("--out", default="/verif/work/mutcamp")
     ap.add_argument("--files", default="")
+    ap.add_argument("--patches", default="", help="directory with <PROP>/m*.diff (hand-written faulty variants): each is run against the check of <PROP>")
     ap.add_argument("--verif", default="/verif", help="tree whose bin/vcheck is used (a snapshot keeps a long campaign independent of edits)")
     ap.add_argument("--skip-done", default="", help="results.jsonl whose mutant ids are not run again")
     ap.add_argument("--rerun", default="", help="results.jsonl of an earlier campaign: run its survivors / infra again with the current checks")
@@ -164,6 +175,14 @@ def main():
     files = [f for f in FILES if FILES[f] and os.path.exists(os.path.join(REPO, f))]
     if a.files:
         files = [f for f in files if any(x in f for x in a.files.split(","))]
+    if a.patches:
+        files = []
+        import glob
+        for d in sorted(glob.glob(os.path.join(a.patches, "C[0-9][0-9]"))):
+            prop = os.path.basename(d)
+            for f in sorted(glob.glob(os.path.join(d, "m*.diff"))):
+                todo.append({"id": "%s/%s" % (prop, os.path.basename(f)[:-5]), "file": "-", "line": 0, "op": "patch", "before": "",
+                             "after": "", "patch": f, "checks": [prop]})
     if a.rerun:
         files = []
         for l in open(a.rerun):
